@@ -202,7 +202,20 @@ def judge_entry_points(ck, cs, r, inp):
 
 
 # ----------------------------------------------------------------------------- the public factory paths
-FACTORY_MODES = ("utils-factory-str", "utils-factory-class", "class-factory", "parent-add")
+FACTORY_MODES = ("utils-factory-str", "utils-factory-class", "class-factory", "parent-add", "shared-objects")
+
+
+def duplicate_children(tree):
+    """in place: in every list of >= 2 children the second becomes an equal copy of the first (same cardinalities);
+    returns how many lists were changed"""
+    n = 0
+    for node in c03.all_nodes(tree):
+        for kv in node["kw"]:
+            v = kv[1]
+            if v and "l" in v and len(v["l"]) >= 2 and v["l"][0] != v["l"][1]:
+                v["l"][1] = json.loads(json.dumps(v["l"][0]))
+                n += 1
+    return n
 
 
 def falsify(L, tree):
@@ -262,6 +275,11 @@ def factory_part(ck, L, G, order, per_type):
             t = G.tree(c, 1 if j == 0 else 2, rich=True, force={"include": 0} if c == root else None)
             nf = falsify(L, t) if j % 2 == 0 else 0
             base.append({"tree": t, "tag": "probe_" + c, "doc": False, "type": c, "role": "factory:" + ("falsy-values" if nf else "random-values"), "falsy": nf})
+    # the same child at two positions: equal siblings (and, built as shared objects, one object held twice)
+    for b in list(base):
+        t = json.loads(json.dumps(b["tree"]))
+        if b["role"].startswith("factory:") and duplicate_children(t):
+            base.append(dict(b, tree=t, role="factory:equal-siblings"))
     cases = []
     for b in base:
         for m in ("ctor",) + FACTORY_MODES:
@@ -282,6 +300,16 @@ def factory_part(ck, L, G, order, per_type):
             ck.tally("factory-path:" + m)
             ck.count(1, nontrivial_key=("factory", m, json.dumps(ref["obj"], sort_keys=True)) if cs["falsy"] else None)
             inp = {"tree": cs["tree"], "tag": cs["tag"], "doc": False, "type": cs["type"], "role": cs["role"], "build": m}
+            if m == "shared-objects":
+                if "obj_err" in r or r.get("obj") != ref["obj"] or r.get("rec", {}).get("raised") is not None or r.get("text") != ref.get("text"):
+                    ck.witness("C02:tree-holding-one-child-object-at-two-positions-treated-differently",
+                               "a conforming %s in which equal subtrees are one and the same python object (held at two positions; "
+                               "built from distinct equal objects it passes validate and is written as valid XML): %s" % (
+                                   cs["type"], r.get("obj_err") or ("validate(recursive=True) raises %s: %s" % (
+                                       r["rec"]["raised"], (r["rec"].get("text") or "")[:200]) if r.get("rec", {}).get("raised") else
+                                       "the XML differs" if r.get("text") != ref.get("text") else tree_diff(ref["obj"], r["obj"]))),
+                               input=inp, expected="as for distinct equal objects")
+                continue
             if "obj_err" in r:
                 ck.witness("C02:factory-path-rejects-conforming-values:" + m,
                            "building a conforming %s (the constructor-built tree passes validate and is written as valid XML) through %s raises %s" % (
